@@ -114,8 +114,9 @@ example :
 /-- SIMULATION THEOREM of belt-DWP (chunk independence and get-then-continue in one statement).
 For every session `s` of `beltDWPStepI / StepE / StepA / StepD / StepG / StepV` calls and relocations from
 `beltDWPStart` that respects the order rule of belt.h (`Admissible`: no non-empty StepI fragment after a
-non-empty StepA fragment — the ASSERT of StepI —, critical data shorter than 2^61 octets; everything else in
-any order and any fragmentation, empty fragments included), the implementation returns call by call what the
+non-empty StepA fragment — the ASSERT of StepI — and NOTHING else: no bound on any length, the 64-bit bit counters
+wrap in the session exactly as in the one-call computation; everything else in any order and any fragmentation,
+empty fragments included), the implementation returns call by call what the
 specification machine `dwpSpecB` returns, whose state is only `(I, A, X)` = the open data, critical data and
 encrypted data absorbed so far:
 (i) every StepG returns `dwpTagOf I A` = the tag computed by ONE StepI call on `I` and ONE StepA call on `A`,
@@ -144,8 +145,14 @@ example :
     (outs (dwpB toy) (C01.dwpStart toy k iv) s)[12]? = some (.data (dwpTagOf toy k iv (toyData.take 17) ct)) ∧
     dwpTagOf toy k iv (toyData.take 5) [] ≠ dwpTagOf toy k iv (toyData.take 17) ct := by decide +kernel
 
-/-- the order rule is not vacuous: a session that violates it -/
+/-- the order rule is not vacuous: a session that violates it; StepA fragments are never restricted -/
 example : ¬ Admissible [.op (.auth [1]), .op (.ad [2])] := by decide
+example (ds : List Bytes) : Admissible (calls AeadOp.auth ds) := by
+  show admFrom _ _ = true
+  generalize (⟨[], [], []⟩ : Absorbed) = a
+  induction ds generalizing a with
+  | nil => rfl
+  | cons d ds ih => exact ih _
 
 /-- ... and the order rule is needed: with a non-empty StepI fragment after a non-empty StepA fragment the
 implementation (Release build: the ASSERT is compiled out) does NOT compute the tag of `(I, A)` -/
